@@ -165,5 +165,6 @@ class XValTheory:
         if name == "pythonize":
             return Builtin("xval.pythonize", lambda i, a, k: SPy(rt.f_pyz(obj.e)))
         if name == "value":
-            return SPy(rt.f_pyz(obj.e))
+            # the wrapped python value; NOT the same as pythonize() for classes that override it (TimeTicks)
+            return SPy(rt.f_xvalue(obj.e))
         return stdlib.MISSING
